@@ -129,6 +129,12 @@ def run(idx, rep, tier):
             if fname == "mul" and sc_names:
                 scalar_dtype(idx, rep, rule, next(iter(sc_names)), pb if a_scalar else pa)
 
+    # ------------------------------------------------------------ 2b. block_diag assembly
+    bd = [f for f in idx.funcs.values() if f.short == "block_diag" and f.module.name in ("cola.fns", ) and f.parent is None]
+    if not bd:
+        rep.missing_anchor("cola.fns.block_diag")
+    else:
+        block_diag_assembly(idx, rep, bd[-1])
     # ------------------------------------------------------------ 3. shape validation
     shape_validation(idx, rep)
     # ------------------------------------------------------------ 4. dtype metadata of *Ms composites
@@ -251,6 +257,42 @@ def scalar_dtype(idx, rep, rule, c, a):
             if other is not None and isinstance(other, ast.Subscript) and nospace(other.value) in (f"{a}.Ms", ):
                 rep.refuted("scalar-dtype", rule.role + ":part", f"the scalar is forwarded to `{ast.unparse(call)}`: it is typed by the single part `{ast.unparse(other)}` although the "
                             f"composite's dtype is the promotion over all parts ({a}.Ms): a scalar that fits {a}.dtype but not that part's dtype is truncated", detail="cast-to-part", locs=loc)
+
+
+def block_diag_assembly(idx, rep, f):
+    """block_diag(*ops) is the block diagonal of its operands in order.  Flattening a nested, REPEATED block diagonal by
+    multiplying multiplicities is not an identity: I_m (x) (A (+) B) = (A (+) B) (+) (A (+) B) ..., whereas multiplicities
+    [m, m] on [A, B] mean (A (+) A ...) (+) (B (+) B ...) -- a permuted matrix."""
+    va = f.node.args.vararg.arg if f.node.args.vararg else (f.params[0] if f.params else None)
+    loc = [idx.loc(f.module, f.node)]
+    rets = [r for r in df.returns(f.node) if r.value is not None]
+    direct = [r for r in rets if isinstance(r.value, ast.Call) and nospace(r.value.func) == "BlockDiag" and len(r.value.args) == 1 and isinstance(r.value.args[0], ast.Starred)
+              and nospace(r.value.args[0].value) == va and not r.value.keywords]
+    if rets and len(direct) == len(rets):
+        rep.proved("rewrite-rule", "block_diag", f"returns BlockDiag(*{va}): the operands in order, unit multiplicities", locs=loc)
+        return
+    # products of multiplicities anywhere in the helper closure of block_diag
+    fns, seen = [f], {id(f.node)}
+    work = [f]
+    while work:
+        g = work.pop()
+        for c in df.calls(g.node):
+            r = idx.resolve_expr(g.module, c.func, g)
+            if r is not None and r.kind == "funcs" and getattr(r.val[-1], "rule", None) is None and id(r.val[-1].node) not in seen and r.val[-1].module is f.module:
+                seen.add(id(r.val[-1].node))
+                fns.append(r.val[-1])
+                work.append(r.val[-1])
+    for g in fns:
+        mult_names = set()
+        for n in df.body_nodes(g.node):
+            if isinstance(n, (ast.For, ast.comprehension)) and "multiplicities" in nospace(n.iter) and isinstance(n.target, ast.Tuple):
+                mult_names |= {e.id for e in n.target.elts[1:] if isinstance(e, ast.Name)}
+        for n in df.body_nodes(g.node):
+            if isinstance(n, ast.BinOp) and isinstance(n.op, ast.Mult) and (set(df.names_in(n)) & mult_names):
+                rep.refuted("rewrite-rule", "block_diag", f"`{nospace(n)}` in {g.short}: the multiplicity of an enclosing block diagonal is multiplied into the multiplicities of a nested one; "
+                            "a repeated group diag(A, B) x m is then assembled as diag(A x m, B x m), which is a permuted matrix", detail="multiplicities", locs=[idx.loc(g.module, n)])
+                return
+    rep.undecided("rewrite-rule", "block_diag", "block_diag is not BlockDiag(*operands); its assembly is outside the recognised forms", locs=loc)
 
 
 def norm_idx(txt):
